@@ -44,7 +44,7 @@ def scenarios(c):
         for what in ('fault_enc', 'fault_dec'):
             for op, kmax in (('open', 2), ('read', 2 * nblk + 4), ('write', 2 * nblk + 8), ('getrandom', 2 if what == 'fault_enc' else 0)):
                 for k in range(1, kmax + 1):
-                    for kind in (('error', 'short', 'eintr') if op == 'write' else (('error',) if op == 'open' else ('error', 'eintr'))):
+                    for kind in (('error', 'short', 'eintr', 'burst') if op == 'write' else (('error',) if op == 'open' else ('error', 'eintr'))):
                         S.append({'kind': 'crypt', 'what': what, 'size': sz, 'pw': 's', 'fault': {'op': op, 'k': k, 'kind': kind}}); c.distinct([(what, sz, op, k, kind)])
     # every second failing scenario finds an older file under the output name: it must be gone afterwards too
     n = 0
@@ -107,9 +107,10 @@ def run(c):
     c.mc_bg('SysSum', 'SysSumNegList', must_fail=True)      # a failed read of the checksum list taken for end of file must be refuted
     c.mc_bg('SysSum', 'SysSumNegOut', must_fail=True)       # never looking at standard output must be refuted
     c.mc_bg('SysTools', 'SysToolsNegRead', must_fail=True)  # "the first short read is the end of the stream" must be refuted
+    c.mc_bg('SysTools', 'SysToolsNegResume', must_fail=True)   # "after a partial write, send the buffer again from its start" must be refuted
     c.mc_bg('SysTools', 'SysToolsNeg', must_fail=True)      # the "!safe_file_write()" convention with -1 on error must be refuted
     c.assumptions += ['the process model abstracts cryptography (authentic / modified flags) and the 8192-round PBKDF2; the real binaries are judged on exit status, existence of the output file and byte equality of the round trip',
-                      'I/O faults are injected with an LD_PRELOAD shim at the k-th open/read/write/getrandom for every k the run reaches (error, short write then ENOSPC, EINTR once); asconsum reads through stdio, so its read errors are injected with strace (inject=read:error=EIO:when=k on the data file)',
+                      'I/O faults are injected with an LD_PRELOAD shim at the k-th open/read/write/getrandom for every k the run reaches (error, short write then ENOSPC, EINTR once, and for write a transient partial transfer - a third of the buffer, then half of the rest - after which nothing may be lost); asconsum reads through stdio, so its read errors are injected with strace (inject=read:error=EIO:when=k on the data file)',
                       'a modified or truncated file verifying by chance has probability 2^-128']
     S = scenarios(c)
     rc, out = sh(['strace', '-o', '/dev/null', '-e', 'trace=read', 'true'], timeout=30)
